@@ -43,14 +43,17 @@ def gen_cases(ctx):
                    precond=rng.choice([None, None, "jacobi", "exact", "lowrank", "identity_alias"]), guess=rng.random() < 0.2,
                    tol=rng.choice([1.0, 1e-2, 1e-4, 1e-8]), max_iter=rng.choice(["n", "2n", "half", 1000]), n_tridiag=rng.choice([0, 0, 1, 2]),
                    tridiag_iter=rng.choice(["n", "n+2", "small"]), by_size=rng.random() < 0.3, seed=rng.randrange(1 << 30),
-                   clause=rng.choice(["trace", "trace", "trace", "scaling", "precond_limit", "raises"]))
+                   clause=rng.choice(["trace", "trace", "trace", "scaling", "precond_limit", "raises"]),
+                   matscale=rng.choice([1.0, 1.0, 1.0, 1e12]) if dtype == "f64" else 1.0)
 
 
 def _setup(case):
     dt = zoo.DT[case["dtype"]]
     g = torch.Generator().manual_seed(case["seed"])
     n, batch = case["n"], case["batch"]
-    A64 = zoo.pd_matrix(g, n, batch, kappa=case["kappa"], family=case["family"])
+    # matscale: the same spectrum at a very large scale (an operator with a large output scale): every clause is scale-invariant, the
+    # solver's absolute safeguards (eps = 1e-10) are not necessarily
+    A64 = zoo.pd_matrix(g, n, batch, kappa=case["kappa"], family=case["family"]) * case.get("matscale", 1.0)
     A = A64.to(dt)
     A64 = A.to(torch.float64)
     A64 = (A64 + A64.mT) / 2
@@ -179,7 +182,10 @@ def run_case(case, ctx):
     floor_rel = 5e-5 * math.sqrt(kA) + 20 * kA * eps
     rate = (math.sqrt(kap) - 1) / (math.sqrt(kap) + 1)
     # ---------------- per-iteration clauses (judged where the floor leaves room: f32 only for kappa <= 1e3)
-    judge_trace = floor_rel < 0.1 and case["special"] != "huge" and case["special"] != "tiny"
+    # at a very large scale the solver's ABSOLUTE safeguards (eps = 1e-10 on r^T z, p^T A p) fire legitimately (that is the "floor implied
+    # by its own safe-division thresholds"): only the tridiagonal clauses, which concern the recorded Lanczos coefficients, are judged there
+    scaled = case.get("matscale", 1.0) != 1.0
+    judge_trace = floor_rel < 0.1 and case["special"] != "huge" and case["special"] != "tiny" and not scaled
     x_prev = beg["result"].to(torch.float64)
     e0 = _anorm(x_prev - Xs, A64)
     # the floor is a property of the solve, not of the start: with an initial guess close to the solution e_0 is small while the
@@ -226,7 +232,7 @@ def run_case(case, ctx):
             ctx.fail("zero_rhs_gives_zero", "value", err=float(X64[..., 0].abs().max()), **kw)
         else:
             ctx.ok("zero_rhs_gives_zero", kb)
-    if not warned and iters:
+    if not warned and iters and not scaled:
         R = A64 @ X64 - B64
         rel = R.norm(dim=-2) / bn.clamp_min(1e-300)
         rel = torch.where(bn < 1e-10, torch.zeros_like(rel), rel)
@@ -317,6 +323,8 @@ def run_case(case, ctx):
             elif n_quad:
                 ctx.ok("tridiag_quadrature_identity", kb, n >= 2, sample=dict(n=n, kappa=kap, precond=pk, n_tridiag=ntri, checked=n_quad))
     # ---------------- metamorphic pairs
+    if scaled:
+        return
     if clause == "scaling" and case["special"] is None and 4 * math.sqrt(kA) * floor_rel < 0.05:
         c = 3.7
         res2, ex = compare.attempt(run, B * c, pre, max(mi, 2 * n), 0, 1e-10, None if x0 is None else x0 * c, min(ti, max(mi, 2 * n)))
